@@ -35,6 +35,8 @@ def gen(rng, tier):
             size = len(lists[li])
             cap = rng.choice([1, max(1, size - 1), size, size + 1, rng.randrange(1, 2 * size + 1)])
         op = {'list': li, 'cap': cap}
+        if rng.random() < 0.05:
+            op['tick'] = rng.choice([0.5, 6.0, 3600.0, 86400.0])
         if rng.random() < 0.15:
             op['perm'] = rng.randrange(2 ** 31)
         ops.append(op)
